@@ -36,6 +36,19 @@ Theorem suspended_frames_silent : forall (O : TimeOps) (P : prog O) sub a w, cra
 Proof. exact recur_only_actives. Qed.
 Print Assumptions suspended_frames_silent.
 
+(* the clause suspends what follows it (truthy result) only while the auxiliary has NOT completed; a crashed
+   world is never reported as suspended *)
+Theorem suspended_only_while_incomplete : forall (O : TimeOps) (P : prog O) sub a mf ns aux w w',
+  suspend P sub a mf ns aux w = (w', true) -> done (gett w' aux) = false /\ crashed w' = None.
+Proof. exact suspend_truthy_incomplete. Qed.
+Print Assumptions suspended_only_while_incomplete.
+
+(* "it then runs every tick regardless of its conditions until it completes" *)
+Theorem running_conditional_aux_ignores_conditions : forall (O : TimeOps) (P : prog O) sub a mf ns ns' aux w,
+  done (gett w aux) = false -> suspend P sub a mf ns aux w = suspend P sub a mf ns' aux w.
+Proof. exact suspend_running_ignores_conditions. Qed.
+Print Assumptions running_conditional_aux_ignores_conditions.
+
 (* resuming is not a re-entry: restoring the outline emits no event and runs no action *)
 Theorem resume_same_tick_no_reenter : forall (O : TimeOps) (P : prog O) a w,
   trace (reactivate P a w) = trace w.
